@@ -94,8 +94,19 @@ func traverseBottomUp(parent *parser.Expr, current *parser.Expr, transform func(
 		if stop := traverseBottomUp(current, &node.Expr, transform); stop {
 			return stop
 		}
+		// A parameter which selects series is an expression of its own (e.g. topk(scalar(x), y)).
+		if node.Param != nil && selectsSeries(node.Param) {
+			if stop := traverseBottomUp(current, &node.Param, transform); stop {
+				return stop
+			}
+		}
 		return transform(parent, current)
 	case *parser.Call:
+		// scalar() depends on the number of series in the whole data set:
+		// nothing below it is rewritten on its own.
+		if node.Func.Name == "scalar" {
+			return true
+		}
 		for i := range node.Args {
 			if stop := traverseBottomUp(current, &node.Args[i], transform); stop {
 				return stop
